@@ -5,7 +5,7 @@ usage: tools/reseed_all.py [-j N] [--only C07,C11] [--names 'p*'] [--tier quick]
 Writes seeded/matrix.json: per change {demo_clean_rc, demo_patched_rc, check_rc, caught, failing_input_found, line}.
 h* changes are behaviour preserving: expected check_rc == 0.  Nothing is applied to /repo.
 """
-import argparse, concurrent.futures as cf, fnmatch, glob, json, os, subprocess, sys, time
+import argparse, concurrent.futures as cf, fcntl, fnmatch, glob, json, os, subprocess, sys, time
 
 VERIF = os.path.dirname(os.path.dirname(os.path.abspath(__file__)))
 
@@ -48,13 +48,16 @@ def main():
     with cf.ThreadPoolExecutor(a.j) as ex:
         for prop, name, r in ex.map(lambda d: one(d, a.tier), dirs):
             r["repo_head"], r["verif_head"], r["tier"] = head, vhead, a.tier
-            mat.setdefault(prop, {})[name] = r
+            with open(mpath + ".lock", "w") as lk:   # several engineers run this at once: merge under a lock
+                fcntl.flock(lk, fcntl.LOCK_EX)
+                mat = json.load(open(mpath)) if os.path.exists(mpath) else {}
+                mat.setdefault(prop, {})[name] = r
+                json.dump(mat, open(mpath, "w"), indent=1, sort_keys=True)
             exp = 0 if name.startswith("h") else 1
             neutral = (not name.startswith("h")) and r["demo_patched_rc"] == 0
             tag = "ok" if r["check_rc"] == exp else ("neutralised" if neutral and r["check_rc"] == 0 else "UNEXPECTED")
             print(f"{prop}/{name}: check_rc={r['check_rc']} demo={r['demo_clean_rc']}/{r['demo_patched_rc']} "
                   f"fi={r['failing_input_found']} {tag} {r['wall']}s", flush=True)
-            json.dump(mat, open(mpath, "w"), indent=1, sort_keys=True)
 
 
 if __name__ == "__main__":
